@@ -329,13 +329,13 @@ func checkC11(r *fw.Run) {
 		return
 	}
 	rng := r.Rng("progs")
-	n := r.Pick(240, 12000)
+	n := r.Pick(240, 1400)
 	feat := map[string]int{}
 	var progs, conc []*Prog
 	for i := 0; i < n; i++ {
 		p := c11Prog(i, rng, feat)
 		progs = append(progs, p)
-		if p.Cell == "concurrent" && len(conc) < r.Pick(24, 600) {
+		if p.Cell == "concurrent" && len(conc) < r.Pick(24, 200) {
 			conc = append(conc, p)
 		}
 	}
